@@ -32,11 +32,19 @@ EXTRA = ["cat <(true) >/dev/null", "v=$(true; false)", "cat <<< x >/dev/null", "
          "read l < <(echo hi)", "cat <(echo a) <(echo b) >/dev/null",
          "while read l; do :; done < <(printf 'a\\nb\\n')", "echo x > >(cat >/dev/null); wait", "f0 < <(echo hi)",
          "{ read l; } < <(echo hi)", "exec 5< <(echo hi) 6< <(echo ho); exec 5<&- 6<&-", "exec 3< <(echo hi); exec 3< <(echo ho); exec 3<&-",
-         "exec 3<&0; exec 3<&-", "exec 3>&1 4>&2; exec 3>&- 4>&-", "exec 3<> /dev/null; exec 3>&-", "exec 7</dev/null 7<&-"]
+         "exec 3<&0; exec 3<&-", "exec 3>&1 4>&2; exec 3>&- 4>&-", "exec 3<> /dev/null; exec 3>&-", "exec 7</dev/null 7<&-",
+         # rarely enabled modes: POSIX mode (temporary assignments before special builtins), in and outside functions
+         # (found missing by seed C18-3); other option/mode switches around dispatch
+         "fpx", "fpx; fpx | cat", "set -o posix; XT=1 :; XT=2 eval true; XT=3 export YP=1; set +o posix",
+         "( set -o posix; XT=1 :; XT=2 f0 )", "set -o posix; fr 2>/dev/null; XT=1 f0; set +o posix", "fpy 2>/dev/null",
+         "set -f; XT=1 f0; set +f", "set -u; f0 ${UNSETZZ-}; XT=1 f0; set +u", "shopt -s lastpipe; true | XT=1 f0; shopt -u lastpipe",
+         "set -o pipefail; f0 | f0; set +o pipefail", "set -e; f0 || true; XT=1 f0 || true; set +e"]
 DEFS = ('fr() { return 3; } < "/nonexistent_zz/$1"\nfw() { :; } > /nonexistent_zz/d/f\nfok() { :; } < /dev/null\n'
         'SD=${TMPDIR:-/tmp}/c18src.$$; mkdir -p $SD; echo "return 3" > $SD/r; echo nosuchcmd_zz > $SD/n; echo "if then" > $SD/s\n'
         'printf "f0\\nRO=1 true\\n" > $SD/f; printf "true < /nonexistent_zz/f\\nreturn 2\\n" > $SD/d; printf ". $SD/r\\necho no\\n" > $SD/nest\n'
-        'fs() { . $SD/r; }\n')
+        'fs() { . $SD/r; }\n'
+        'fpx() { set -o posix; XT=1 :; XT=2 eval true; XT=3 . $SD/r; XT=4 export YP=1; XT=5 return 3; }\n'
+        'fpy() { set -o posix; XT=1 . /nonexistent_zz/f; XT=2 readonly RO; set +o posix; }\n')
 
 
 def _sweep_src_dirs():
